@@ -156,11 +156,28 @@ Definition w0 : wst := mkW 0 [] [] [] [] false [] [] false [].
 Fixpoint nodupZ (l : list Z) : bool :=
   match l with [] => true | x :: t => negb (existsb (Z.eqb x) t) && nodupZ t end.
 
+(* reason 12: the transport's read failure has been injected, the scenario is at a quiescent point, and the multiplexer's
+   read loop is still alive although EVERY stream of the scenario is gone (its context was ended by the environment): the
+   read loop can only miss the failure while it is parked behind a live stream that does not read
+   (C09_unrecorded_only_behind_a_full_queue); with no such stream it is stuck for ever - it never notices the transport
+   closing, and every call waiting for a reply waits for ever *)
+Fixpoint stuck_walk (acts : list act) (observed : list obs) (n : nat) (streams gone : list nat) (failed : bool) : list nat :=
+  match acts, observed with
+  | a :: acts', o :: obs' =>
+      let n' := match a with ANewUnary _ _ | ANewStream _ => S n | _ => n end in
+      let streams' := match a with ANewStream _ => n :: streams | _ => streams end in
+      let gone' := match a with ACancel c | AExpire c => c :: gone | _ => gone end in
+      let failed' := match a with AFailRead => true | _ => failed end in
+      (if failed' && negb (o_mux o =? 0) && forallb (fun c => memn c gone') streams' then [12%nat] else []) ++
+      stuck_walk acts' obs' n' streams' gone' failed'
+  | _, _ => []
+  end.
+
 Definition all_reasons (c : ccase) : list nat :=
   let (w, rs) := walk w0 (c_acts c) (c_obs c) in
   let r_ids := if nodupZ (map snd (w_ids w)) then [] else [2%nat] in
   let r_str := if forallb (fun c => is_prefix (msgs_of c (w_msgs w)) (stream_bodies (mine w c))) (seq 0 (w_n w)) then [] else [4%nat] in
-  dedup Nat.eqb (r_ids ++ r_str ++ rs).
+  dedup Nat.eqb (r_ids ++ r_str ++ rs ++ stuck_walk (c_acts c) (c_obs c) 0 [] [] false).
 
 Definition reasons_in (keep : list nat) (c : ccase) : list nat := filter (fun r => memn r keep) (all_reasons c).
 
@@ -192,4 +209,8 @@ Proof. vm_compute. reflexivity. Qed.
 Example reason_10 : all_reasons (CClient [ANewStream false; ADeliver (mkEnv 1 (Some (MdOk 0)) None (Some 50) None false); AFailRead; ARecv 0 false]
     [ex_o [EvWrite (mkEnv 1 (Some (MdOk 0)) None None None false); EvOpenRet 0 None] [] 1; ex_o [] [] 1; ex_o [] [] 0;
      ex_o [EvRecvRet 0 (RErr EConn)] [] 0]) = [10%nat].
+Proof. vm_compute. reflexivity. Qed.
+
+Example reason_12 : all_reasons (CClient [ANewStream false; ACancel 0; AFailRead]
+    [ex_o [EvWrite (mkEnv 1 (Some (MdOk 0)) None None None false); EvOpenRet 0 None] [] 1; ex_o [] [] 1; ex_o [] [] 1]) = [12%nat].
 Proof. vm_compute. reflexivity. Qed.
